@@ -295,10 +295,11 @@ def _check_guards(res: Result, proj: Project, aw: AlgWorld, schemes):
 def _check_no_other_refusal(res: Result, proj: Project, cg):
     """Raise statements reachable from compute_consensus_rankings of the exported algorithms, other than the analysed
     guards, argument checks and abstract stubs."""
+    # (class whose guard / argument check it is, exception): whichever method of the class states it
     allowed = {
-        ("BordaCount.compute_consensus_rankings", "ScoringSchemeNotHandledException"),
-        ("PickAPerm.compute_consensus_rankings", "InompleteRankingsIncompatibleWithScoringSchemeException"),
-        ("ExactAlgorithmCplex.compute_consensus_rankings", "IncompatibleArgumentsException"),
+        ("BordaCount", "ScoringSchemeNotHandledException"),
+        ("PickAPerm", "InompleteRankingsIncompatibleWithScoringSchemeException"),
+        ("ExactAlgorithmCplex", "IncompatibleArgumentsException"),
     }
     # the data classes validate what they are given (malformed penalties, overlapping buckets, empty dataset, candidate
     # not over the universe ...): input validation, wherever those modules choose to write it, is not a refusal of a
@@ -324,7 +325,7 @@ def _check_no_other_refusal(res: Result, proj: Project, cg):
                 e = n.exc.func if isinstance(n.exc, ast.Call) else n.exc
                 name = (dotted(e) or "").split(".")[-1]
                 n_raise += 1
-                if name == "NotImplementedError" or (f.short, name) in allowed:
+                if name == "NotImplementedError" or ((f.cls.name if f.cls is not None else ""), name) in allowed:
                     continue
                 if f.module.name in data_modules and name not in refusal_family:
                     continue
